@@ -236,19 +236,34 @@ def rule_pred(ctx):
     if "quadratic_residues" not in repr(as_poly(info["iter"])):
       probs.append("loop does not range over self.quadratic_residues")
     for kind, val, s, since, vis in info["body_paths"]:
-      last = s.pc[-1] if s.pc else None
-      if last is None:
+      # per-prime test: the table entry of this prime at index modulus % p, read from the path fact (shape-independent)
+      newf = s.facts[len(vis["head"].facts):]
+      key = sym.mk("key", sym.mk("attr", SELF, "quadratic_residues"), as_poly(vis["k"]))
+      want = sym.mk("idx", sym.mk("idx", sym.mk("attr", SELF, "quadratic_residues"), key), sym.mk("mod", modulus, key))
+      tf = [fc for fc in newf if fc[0] in ("truthy", "falsy") and not isinstance(fc[1], Seq) and as_poly(fc[1]) == want]
+      if len(tf) != 1:
+        probs.append("per-prime test is not the residue-table entry qr[modulus % p] of the same prime")
         continue
-      c, pol, node = last
-      txt = norm(node.test) if node is not None and hasattr(node, "test") else ""
-      if txt != "not qr[modulus % p]":
-        probs.append("per-prime test is `%s`, expected `not qr[modulus %% p]`" % txt)
-      if kind == "return" and not (pol and isinstance(val, Const) and val.v is False):
+      if kind == "return" and not (tf[0][0] == "falsy" and isinstance(val, Const) and val.v is False):
         probs.append("early return is not False on a non-residue")
-  rets = [e for e in w.events if e.kind == "return" and e.node is not None and not e.state.tags]
+      if kind == "fall" and tf[0][0] != "truthy":
+        probs.append("the loop goes on after a non-residue")
   roca_call = sym.mk("mcall", sym.mk("attr", SELF, "roca_key_detector"), lit("IsWeak"), modulus)
-  okT = any(isinstance(e.data["value"], Const) and e.data["value"].v is True and any(f_[0] == "falsy" and as_poly(f_[1]) == roca_call for f_ in e.facts) for e in rets)
-  okF = any(isinstance(e.data["value"], Const) and e.data["value"].v is False and any(f_[0] == "truthy" and as_poly(f_[1]) == roca_call for f_ in e.facts) for e in rets)
+  okT = okF = False
+  for kind, val, s in w.terminals:
+    if kind != "return" or s.tags:
+      continue
+    outcomes = []
+    if isinstance(val, Const) and isinstance(val.v, bool):
+      outcomes.append((val.v, list(s.facts)))
+    elif isinstance(val, tuple):
+      outcomes.append((True, list(s.facts) + sym.facts_of(val, True)))
+      outcomes.append((False, list(s.facts) + sym.facts_of(val, False)))
+    for res, facts in outcomes:
+      if res is True and any(f_[0] == "falsy" and not isinstance(f_[1], Seq) and as_poly(f_[1]) == roca_call for f_ in facts):
+        okT = True
+      if res is False and any(f_[0] == "truthy" and not isinstance(f_[1], Seq) and as_poly(f_[1]) == roca_call for f_ in facts):
+        okF = True
   if not (okT and okF):
     probs.append("ROCA keys are not excluded (variant must be non-ROCA)")
   init = repo.func("roca", "ROCAKeyVariantDetector.__init__")
@@ -521,19 +536,58 @@ def rule_keygen(ctx):
   okl = "while len(prime_bytes) <= p_size_bytes:" in src
   ctx.record(R, g.where, "byte window prime_bytes[1 : size+1] of more than size bytes", okw and okl, "first keystream byte skipped, p_size_bits // 8 bytes used" if okw and okl else
              "byte window of the candidate changed")
-  okm = False
-  oka = False
-  for e in wg.events:
-    if e.kind == "augassign" and e.data["name"] == "p":
-      v = as_poly(e.data["value"])
-      txt = norm(e.node)
-      if txt in ("p |= 1 << p_size_bits - 1", "p |= 1 << (p_size_bits - 1)"):
+  # prime search: read from the loop structure of the walker (names, augmented vs plain assignment and statement order are irrelevant)
+  bits = P("param", [q for q in g.params() if q != "self"][0])
+  search = None
+  for info in wg.loop_info.values():
+    if not isinstance(info["node"], ast.While):
+      continue
+    for vis in info["visits"]:
+      hf = vis["head"].facts[len(vis["pre"].facts):]
+      for fc in hf:
+        if fc[0] == "falsy" and not isinstance(fc[1], Seq):
+          a = as_poly(fc[1]).as_atom()
+          if a is not None and a.kind == "is_prime" and as_poly(a.args[1]).as_int() == 1:
+            search = (info, vis, as_poly(a.args[0]))
+  okm = oka = okp = False
+  whym = whyp = ""
+  if search is None:
+    whym = whyp = "no `while not is_prime(candidate, 1)` loop found"
+  else:
+    info, vis, cand = search
+    cname = [nm for nm, v_ in vis["head"].env.items() if not isinstance(v_, (Seq, Const, tuple)) and v_ is not None and as_poly(v_) == cand]
+    pre = as_poly(vis["pre_env"][cname[0]]) if cname and vis["pre_env"].get(cname[0]) is not None else None
+    if pre is not None:
+      msb = sym.mk("pow", Poly.const(2), bits - 1)
+      ms = [a for a in pre.all_atoms() if a.kind == "bor" and any(as_poly(x) == msb for x in a.args) and any("from_bytes" in repr(x) for x in a.args)]
+      if ms:
         okm = True
-      if txt in ("p += 31 - p % 30",):
-        oka = True
-  ctx.record(R, g.where, "msb set, aligned to 30k + 1", okm and oka, "p |= 1 << (bits - 1); p += 31 - p % 30" if okm and oka else "msb / alignment step changed")
-  okp = "while not gmpy.is_prime(p, 1):" in src and "p += GCD_30_DELTA[idx % 8]" in src and "idx += 1" in src and "if gmpy.is_prime(p, 10):" in src and "idx = 0" in src
-  ctx.record(R, g.where, "wheel walk until probable prime, then 10-round confirmation", okp, "candidate advanced along the wheel with a running index" if okp else "prime search loop changed")
+        Mv = Poly.atom(ms[0])
+        oka = (pre - (Mv + 31 - sym.mk("mod", Mv, Poly.const(30)))).is_zero()
+      whym = "" if okm and oka else ("candidate before the search is %s" % (repr(pre)[:120],))
+    # wheel walk
+    idxs = [nm for nm in info["modified"] if nm in vis["pre_env"] and isinstance(vis["pre_env"][nm], (Const, Poly)) and as_poly(vis["pre_env"][nm]).is_zero()]
+    for kind, val, s_, since, v2 in info["body_paths"]:
+      if v2 is not vis or kind != "fall" or not cname:
+        continue
+      for ix in idxs:
+        IH = as_poly(vis["head"].env[ix])
+        step = as_poly(s_.env[cname[0]]) - cand
+        want = sym.mk("idx", P("ref", "keypair_generator.GCD_30_DELTA"), sym.mk("mod", IH, Poly.const(8)))
+        if (step - want).is_zero() and (as_poly(s_.env[ix]) - IH - 1).is_zero():
+          okp = True
+    conf = False
+    for kind, val, s_ in wg.terminals:
+      if kind == "return" and not isinstance(val, (Seq, Const)) and cname and as_poly(val) == as_poly(vis["after_env"][cname[0]]):
+        conf = any(fc[0] == "truthy" and not isinstance(fc[1], Seq) and as_poly(fc[1]).as_atom() is not None and as_poly(fc[1]).as_atom().kind == "is_prime"
+                   and as_poly(as_poly(fc[1]).as_atom().args[0]) == as_poly(val) and as_poly(as_poly(fc[1]).as_atom().args[1]).as_int() == 10 for fc in s_.facts)
+    if not okp:
+      whyp = "the candidate is not advanced by GCD_30_DELTA[idx % 8] with idx running from 0 in steps of 1"
+    elif not conf:
+      okp = False
+      whyp = "the prime is not returned under the 10-round confirmation"
+  ctx.record(R, g.where, "msb set, aligned to 30k + 1", okm and oka, "p = from_bytes(..) | 2^(bits-1); p += 31 - p % 30" if okm and oka else "msb / alignment step changed: " + whym)
+  ctx.record(R, g.where, "wheel walk until probable prime, then 10-round confirmation", okp, "candidate advanced along the wheel with a running index" if okp else "prime search loop changed: " + whyp)
   init = repo.func("keypair_generator", "Generator.__init__")
   si = ast.unparse(init.node)
   oki = "t = hashlib.sha1(seed).digest()" in si and "key = hashlib.sha1(t).digest()" in si and "seed = hashlib.sha1(key).digest()" in si and \
